@@ -206,6 +206,7 @@ def prog_from_description(d, source):
         cc = PG.Call(c['callee'], c['n'], [id_of_name(n) for n in c['names']], c['va'], c['vk'],
                      c['own_va'], c['own_vk'], c['partial'])
         cc.nested = c['nested']
+        cc.unresolvable = c.get('unresolvable', False)
         p.calls.append(cc)
     return p
 
